@@ -35,14 +35,14 @@ type Lock struct {
 
 // CheckConfig configures one property check.
 type CheckConfig struct {
-	Property   string
-	Tier       string
-	Repo       string
-	VerifDir   string
-	Seed       int
-	WriteLock  bool
-	Quiet      bool
-	harness    *harnessRun
+	Property  string
+	Tier      string
+	Repo      string
+	VerifDir  string
+	Seed      int
+	WriteLock bool
+	Quiet     bool
+	harness   *harnessRun
 }
 
 type funcEvidence struct {
@@ -563,20 +563,20 @@ func RunCheck(cfg CheckConfig) int {
 		"wall_s":      round3(time.Since(start).Seconds()),
 		"violations":  nviol,
 		"coverage": map[string]any{
-			"obligations":              nObl - knownObl,
-			"discharged":               nDis,
-			"checker_cmd":              fmt.Sprintf("/verif/check %s %s", cfg.Property, cfg.Tier),
-			"trusted_base":             dedupe(trustedBase),
-			"samples":                  samples,
-			"functions_under_contract": fev,
-			"functions_tagged":         tagged,
-			"back_ends":                solverCount,
-			"solver_seconds":           round3(solverTime),
-			"vacuity_guards":           map[string]int{"canaries_and_covers": canaries, "not_provable_as_required": canOK},
+			"obligations":               nObl - knownObl,
+			"discharged":                nDis,
+			"checker_cmd":               fmt.Sprintf("/verif/check %s %s", cfg.Property, cfg.Tier),
+			"trusted_base":              dedupe(trustedBase),
+			"samples":                   samples,
+			"functions_under_contract":  fev,
+			"functions_tagged":          tagged,
+			"back_ends":                 solverCount,
+			"solver_seconds":            round3(solverTime),
+			"vacuity_guards":            map[string]int{"canaries_and_covers": canaries, "not_provable_as_required": canOK},
 			"known_finding_obligations": knownObl,
 			"baseline_obligation_names": len(lock.Properties[cfg.Property]),
-			"cross_check":              crossCheckEvidence(cfg.harness),
-			"explanation":              "every obligation generated from the current source of the functions in this property's cone was sent to the SMT portfolio; 'discharged' counts unsat answers",
+			"cross_check":               crossCheckEvidence(cfg.harness),
+			"explanation":               "every obligation generated from the current source of the functions in this property's cone was sent to the SMT portfolio; 'discharged' counts unsat answers",
 		},
 		"assumptions": translationAssumptions,
 	}
@@ -671,15 +671,16 @@ func runHarness(cfg CheckConfig) *harnessRun {
 	hr := &harnessRun{}
 	ovPath := filepath.Join(os.TempDir(), fmt.Sprintf("gvc-overlay-%d.json", os.Getpid()))
 	ov := map[string]map[string]string{"Replace": {
-		filepath.Join(cfg.Repo, "markdown", "zz_replay_test.go"): filepath.Join(cfg.VerifDir, "replay", "markdown_replay_test.go"),
-		filepath.Join(cfg.Repo, "zz_replay_test.go"):              filepath.Join(cfg.VerifDir, "replay", "gtree_replay_test.go"),
+		filepath.Join(cfg.Repo, "markdown", "zz_replay_test.go"):     filepath.Join(cfg.VerifDir, "replay", "markdown_replay_test.go"),
+		filepath.Join(cfg.Repo, "zz_replay_test.go"):                 filepath.Join(cfg.VerifDir, "replay", "gtree_replay_test.go"),
+		filepath.Join(cfg.Repo, "cmd", "gtree", "zz_replay_test.go"): filepath.Join(cfg.VerifDir, "replay", "cmd_replay_test.go"),
 	}}
 	data, _ := json.Marshal(ov)
 	if err := os.WriteFile(ovPath, data, 0o644); err != nil {
 		return hr
 	}
 	defer os.Remove(ovPath)
-	args := []string{"test", "-tags", "verif", "-overlay", ovPath, "-vet=off", "-count=1", "-timeout", "300s", "-run", "TestReplay_", "-v", ".", "./markdown"}
+	args := []string{"test", "-tags", "verif", "-overlay", ovPath, "-vet=off", "-count=1", "-timeout", "300s", "-run", "TestReplay_", "-v", ".", "./markdown", "./cmd/gtree"}
 	hr.Cmd = "cd " + cfg.Repo + " && GOFLAGS=-mod=mod GOPROXY=off go " + strings.Join(args, " ") + "   (overlay: " + string(data) + ")"
 	cmd := exec.Command("go", args...)
 	cmd.Dir = cfg.Repo
@@ -766,13 +767,13 @@ func writeReplay(cfg CheckConfig, w *World, f *Failure, all []*Failure) string {
 	name := strings.NewReplacer("/", "_", "#", "-", "@", "_", ":", "_", " ", "_").Replace(f.Name)
 	rp := filepath.Join(cfg.VerifDir, "replays", cfg.Property+"-"+name+".json")
 	rec := map[string]any{
-		"property":   cfg.Property,
-		"obligation": f.Name,
-		"function":   f.Func,
-		"kind":       f.Kind,
-		"reason":     f.Reason,
+		"property":      cfg.Property,
+		"obligation":    f.Name,
+		"function":      f.Func,
+		"kind":          f.Kind,
+		"reason":        f.Reason,
 		"failing_input": nil,
-		"note":       "no-failing-input-found: the verifier's back ends return no model over the quantified background; the obligation below passed on the unchanged tree and is not discharged on this one",
+		"note":          "no-failing-input-found: the verifier's back ends return no model over the quantified background; the obligation below passed on the unchanged tree and is not discharged on this one",
 	}
 	if hf, how := matchHarness(cfg.harness, f); hf != nil {
 		rec["failing_input"] = map[string]any{"found_by": "bounded run-time contract search (/verif/replay), executed against the real code of this tree", "match": how, "harness_test": hf.Test, "report": hf.Message}
